@@ -44,6 +44,16 @@ def cases(tier, seed):
         base += designs.op_cases([1, 2, 3, 4, 5, 8], ops='w~&|^n+-<>=xcsm', mul_max=0) + designs.op_cases([1, 2, 3, 4], ops='*', mul_max=4)
         base += designs.constop_cases() + designs.dup_cases() + designs.misc_cases() + designs.carg_cases((1, 2, 3, 4))
         base += designs.expr_cases(150, seed, n=8, maxw=5) + designs.seq_cases(widths=(1, 4, 8))
+    # an Input no net reads (declared and unused, or left unread by an earlier folding) stays part of the interface, in place
+    # and in the copy that update_working_block=False returns
+    for c in designs.op_cases([1, 3], ops='w&+', mul_max=0):
+        for b, p in (('word', 'optimize_copy'), ('synth', 'optimize_copy'), ('word', 'optimize2'), ('word', 'optimize'), ('word', 'unused_wires')):
+            d = dict(c, spare=2, K=K, base=b, pas=p, scope='both')
+            if p == 'unused_wires':
+                d['keep_inputs'] = True
+            out.append(d)
+    for c in [x for x in designs.constop_cases() if x['op'] == '&'][:4]:
+        out.append(dict(c, K=K, base='word', pas='optimize_then_copy', scope='both'))
     for i, c in enumerate(base):
         if c['fam'] in ('CONSTOP', 'DUP', 'MISC', 'CARG'):
             combos = [(b, p) for b in ('word', 'synth') for p in ('optimize', 'constprop', 'cse')]
@@ -117,6 +127,9 @@ def apply_pass(case, blk, other=None):
             r = blk
         elif p == 'optimize_copy':
             # the non-updating form: the result is a new block, the given one stays as it is
+            r = pyrtl.optimize(update_working_block=False, **okw)
+        elif p == 'optimize_then_copy':
+            pyrtl.optimize(**okw)
             r = pyrtl.optimize(update_working_block=False, **okw)
         elif p == 'optimize_nocheck':
             r = pyrtl.optimize(skip_sanity_check=True, **okw)
